@@ -568,6 +568,9 @@ def check(model, rep, tier):
     from .common import dask_key_obligations
     dask_key_obligations(model, rep, "i-th subtomogram / i-th molecule")
     rep.floor("KEY.site", 8, "(from_array / from_delayed / delayed / map_blocks call sites)")
+    from .generic import close_then_truncate_obligations, functions_in as _fi
+    rep.stats["close_then_truncate_sites"] = close_then_truncate_obligations(
+        model, rep, _fi(model, ["acryo/backend/_api.py", "acryo/_utils.py", "acryo/loader/_loader.py", "acryo/simulator.py"]), "1 window")
     from .generic import rebuild_ctor_obligations, functions_in
     rebuild_ctor_obligations(model, rep, functions_in(model, ["acryo/loader/_batch.py", "acryo/loader/_loader.py", "acryo/loader/_base.py", "acryo/loader/_group.py",
                                                               "acryo/loader/_mock.py"]), "4 pairing")
